@@ -24,6 +24,7 @@ type zzF struct {
 	name   string
 	node   *zzN
 	onType string // "" = always
+	info   *FieldInfo // optional (authorization harness)
 }
 
 type zzN struct {
@@ -51,6 +52,7 @@ func zzBuild(n *zzN, path []string) Node {
 			if f.onType != "" {
 				fld.OnTypeNames = [][]byte{[]byte(f.onType)}
 			}
+			fld.Info = f.info
 			o.Fields = append(o.Fields, fld)
 		}
 		return o
@@ -261,6 +263,8 @@ type zzRef struct {
 	path     []string // response path of the first offending position
 	cur      []string
 	farther  int // an ill-typed failure bubbles past this many nullable ancestors (0 = nearest)
+	fars     []int // per ill-typed failure (in completion order) distance overriding farther
+	nIll     int
 	skipLeft int
 }
 
@@ -276,6 +280,10 @@ func (r *zzRef) fail(n *zzN, why string) string {
 		r.illTyped = true
 		// the response may null a farther nullable ancestor for an ill-typed value
 		r.skipLeft = r.farther
+		if r.nIll < len(r.fars) {
+			r.skipLeft = r.fars[r.nIll]
+		}
+		r.nIll++
 		if n.nullable && r.skipLeft > 0 {
 			r.skipLeft--
 			return zzPropagate
